@@ -461,7 +461,7 @@ func (ex *explorer) worker(w int) (err error) {
 		i.stats.Imprecise += int64(p.imprecise)
 		if (out == "pass") && len(samples) < 4 && len(p.order) > 0 {
 			samples = append(samples, p.sampleInputs())
-			sampleObs = append(sampleObs, append([]string(nil), p.obs...))
+			sampleObs = append(sampleObs, p.renderObs(p.model))
 		}
 		i.path = nil
 		i.rollback(mark)
